@@ -191,7 +191,7 @@ fn access_is_ram(m: &Machine) -> bool {
     a <= 0xEF
 }
 
-fn measure_cost(out: &mut Out, rng: &mut Rng, op: u8, b2: Option<u8>, base: u8, io_bias: bool, fixed: Option<(u8, u8)>) {
+fn measure_cost(out: &mut Out, rng: &mut Rng, op: u8, b2: Option<u8>, base: u8, io_bias: bool, fixed: Option<(u8, u8)>, with_int: bool) {
     let mut s = Sess::new();
     run_line(out, &mut s, "new");
     run_line(out, &mut s, "load 0 255 -");
@@ -240,12 +240,19 @@ fn measure_cost(out: &mut Out, rng: &mut Rng, op: u8, b2: Option<u8>, base: u8, 
         None => (addr(rng), addr(rng)),
     };
     let sp = if rng.chance(1, 4) { *rng.pick(&[0xEFu8, 0xF0, 0xEE, 0xF1]) } else if io_bias && rng.chance(1, 3) { 0xF0 + rng.byte() % 3 } else { 0x60 + rng.byte() % 0x80 };
-    let regs = [r0, r1, addr(rng), base, rng.byte() & 0x07, sp, rng.byte(), rng.byte()];
+    let regs = [r0, r1, addr(rng), base, (rng.byte() & 0x07) | if with_int { 0x08 } else { 0 }, sp, rng.byte(), rng.byte()];
+    if with_int {
+        run_line(out, &mut s, "busw 249 1");
+    }
     run_line(out, &mut s, &format!("force 0 2 {} - 0 0 0 0 0 0 0 R 0", hexs(&regs)));
     let mut guard = 0;
     while !s.m.is_instruction_done() && guard < 50 {
         s.m.raw_mut().trigger_clock_edge();
         guard += 1;
+    }
+    if with_int {
+        // the request is pending from the first cycle of the instruction: its end word enters the routine
+        s.m.trigger_key_interrupt();
     }
     // boundary B0 reached (fetch word executed). Measure to the next boundary.
     let keep_running = |m: &mut Machine| {
@@ -282,7 +289,7 @@ fn measure_cost(out: &mut Out, rng: &mut Rng, op: u8, b2: Option<u8>, base: u8, 
     }
     let b2s = b2.map(|b| b.to_string()).unwrap_or("-".into());
     out.emit(
-        &format!("spec.cost {} {} {} {}", op, b2s, steps, ram),
+        &format!("{} {} {} {} {}", if with_int { "spec.costint" } else { "spec.cost" }, op, b2s, steps, ram),
         &format!("edges={} steps={}", edges, steps),
     );
     out.distinct_case(&format!("{} {} {:?} {}", op, b2s, regs, base));
@@ -303,11 +310,11 @@ pub fn run_c15(out: &mut Out, seed: u64, thorough: bool) {
             if op >= 0xF0 {
                 for b in 0..=255u8 {
                     if defined_second(b) && (thorough || (b as u32 + rep as u32 + op as u32) % 3 == 0) {
-                        measure_cost(out, &mut rng, op, Some(b), base, io, None);
+                        measure_cost(out, &mut rng, op, Some(b), base, io, None, false);
                     }
                 }
             } else {
-                measure_cost(out, &mut rng, op, None, base, io, None);
+                measure_cost(out, &mut rng, op, None, base, io, None, false);
             }
         }
     }
@@ -317,8 +324,18 @@ pub fn run_c15(out: &mut Out, seed: u64, thorough: bool) {
         let mut i = (seed % 37) as u32;
         while i < 65536 {
             let (a, b) = ((i >> 8) as u8, (i & 0xFF) as u8);
-            measure_cost(out, &mut rng, *op, None, 4, false, Some((a, b)));
+            measure_cost(out, &mut rng, *op, None, 4, false, Some((a, b)), false);
             i += stride;
+        }
+    }
+    // interrupt entry: the same law over an instruction whose end word enters the interrupt routine
+    // (request pending, IEF set): register-register ALU instructions and NOP, stack in RAM / at the
+    // RAM-I/O boundary / in the I/O area
+    for rep in 0..(if thorough { 40 } else { 6 }) {
+        for op in (0x60..=0xAFu8).chain(std::iter::once(0x02u8)) {
+            let base = match rep % 3 { 0 => rng.byte() % 0x40, 1 => 0xEE, _ => 0x10 };
+            measure_cost(out, &mut rng, op, None, base, rep % 2 == 1, None, true);
+            out.count("interrupt-entry");
         }
     }
     out.sample("spec.cost 180 - <steps> <ram accesses>  (MUL R0,R1)".into());
